@@ -99,6 +99,8 @@ def execute(spec, ctx):
                             % (rep, dict(want), dict(got)), site="replace")
         if len(res) != len(structure) - len(acc["removed"]) + rep * len(only):
             raise Violation("c04:atom-count", "result has %d atoms, expected %d" % (len(res), len(structure) - len(acc["removed"]) + rep * len(only)), site="replace")
+        # the inserted atoms are the replacement pattern's atoms in the frame of the match (shared with C05)
+        ctx.count("inserted_atoms_checked", replcheck.placement_oracle(ctx, spec, structure, run, acc, prefix="c04"))
         ctx.count("replaced_matches", rep)
         ctx.count("retained_atoms_checked", len(acc["retained"]))
         if rep:
